@@ -26,11 +26,11 @@ Theorem C18_three_headers_local : forall cfg q c cookies user loc k,
   In k three ->
   match proxy_handle T H D TD cfg q (OLocal c cookies user loc) with
   | NoResponse => False
-  | Resp _ h =>
+  | Resp s h =>
       exists tv, tbl_lookup k T = Some tv /\
         (tbl_lookup k (c_overrides cfg) = None -> hget k h = [VStr tv]) /\
         (forall ov, tbl_lookup k (c_overrides cfg) = Some ov ->
-           hget k h = [VStr ov] \/ (is_auth401 c = true /\ k = k_xcto /\ hget k h = [VStr tv]))
+           hget k h = [VStr ov] \/ (is_auth401 c = true /\ k = k_xcto /\ hget k h = [VStr tv] /\ s = 401))
   end.
 Proof. exact three_headers_local. Qed.
 Print Assumptions C18_three_headers_local.
@@ -46,11 +46,11 @@ Theorem C18_three_headers_partial : forall cfg q o k,
   In k three -> today_benign cfg k o ->
   match proxy_handle T H D TD cfg q o with
   | NoResponse => True
-  | Resp _ h =>
+  | Resp s h =>
       exists tv, tbl_lookup k T = Some tv /\
         (tbl_lookup k (c_overrides cfg) = None -> hget k h = [VStr tv]) /\
         (forall ov, tbl_lookup k (c_overrides cfg) = Some ov ->
-           hget k h = [VStr ov] \/ (outcome_is_auth401 o = true /\ k = k_xcto /\ hget k h = [VStr tv]))
+           hget k h = [VStr ov] \/ (outcome_is_auth401 o = true /\ k = k_xcto /\ hget k h = [VStr tv] /\ s = 401))
   end.
 Proof. exact three_headers_today. Qed.
 Print Assumptions C18_three_headers_partial.
@@ -82,9 +82,9 @@ Theorem C18_three_headers_repaired : forall deleted td cfg q o k,
   (forall cs us u, o = OForward cs us u -> c_replace cfg = false -> u_n1xx u = 0%nat) ->
   match proxy_handle T H deleted td cfg q o with
   | NoResponse => True
-  | Resp _ h =>
+  | Resp s h =>
       hget k h = match effective T cfg k with Some v => [VStr v] | None => [] end \/
-      (outcome_is_auth401 o = true /\ k = k_xcto /\ hget k h = [VStr v_nosniff])
+      (outcome_is_auth401 o = true /\ k = k_xcto /\ hget k h = [VStr v_nosniff] /\ s = 401)
   end.
 Proof. exact three_headers_repaired. Qed.
 Print Assumptions C18_three_headers_repaired.
